@@ -54,10 +54,10 @@ Grid == UNION { { FeeXfer(AA, fs, FwINT("U")) : fs \in Lists(AA) } : AA \in Amou
 MCAlphabet == Grid
 SmallAlphabet == Grid
 
-StepProps == [][ Prop_C04(last') /\ Prop_C01(last') /\ Prop_C02(last') /\ Prop_C05(last') /\ Prop_C12(last') ]_vars
+StepProps == [][ Prop_C04(last') /\ Prop_C01(last') /\ MC_C02(last') /\ Prop_C05(last') /\ Prop_C12(last') ]_vars
 
 P01 == [][Prop_C01(last')]_vars
-P02 == [][Prop_C02(last')]_vars
+P02 == [][MC_C02(last')]_vars
 P04 == [][Prop_C04(last')]_vars
 P05 == [][Prop_C05(last')]_vars
 P12 == [][Prop_C12(last')]_vars
